@@ -106,6 +106,7 @@ let () =
         | "O" :: id :: a :: b :: _ ->
           let c = match lex_compare (bytes_of_hex a) (bytes_of_hex b) with Lt -> "0" | Eq -> "1" | Gt -> "2" in
           print_endline (id ^ " cmp=" ^ c)
+        | "F" :: id :: blk :: txid :: _ -> print_items id (run_find (bytes_of_hex blk) (bytes_of_hex txid))
         | "D" :: id :: _ -> print_endline id
         | _ -> failwith ("bad line " ^ line)
       end
